@@ -12,6 +12,9 @@ import Proofs.Atomic
 import Proofs.AtomicDelay
 import Proofs.SeqInv
 import Proofs.ReplayLog
+import Proofs.TargetsInv
+import Proofs.BasesInv
+import Properties.C02
 namespace Pulser
 namespace C09
 
@@ -214,6 +217,181 @@ theorem failed_call_atomic (s : SeqState) (op : Op) (e : Err)
   | estimate p n proto => exact (query_pure s (.estimate p n proto) rfl)
   | phaseRef q b => exact (query_pure s (.phaseRef q b) rfl)
 
+/-! ### Reachable states: no exception at all -/
+
+theorem phaseShift_ok {s : SeqState} {phi : Rat} {qs : List Nat} {b : Basis}
+    (hb : (s.getRefs b).isSome = true) (hq : ∀ q ∈ qs, q < s.nQ) :
+    (s.phaseShift phi qs b).err = none := by
+  unfold SeqState.phaseShift
+  have h1 : ¬ (s.getRefs b).isNone = true := by
+    cases h : s.getRefs b with
+    | none => rw [h] at hb; simp at hb
+    | some l => simp
+  rw [if_neg h1]
+  simp only
+  have h2 : ¬ ((if qs.isEmpty = true then s.allQubits else qs).any fun x => decide (x ≥ s.nQ)) = true := by
+    intro h
+    obtain ⟨q, hqm, hqge⟩ := List.any_eq_true.mp h
+    have hge : q ≥ s.nQ := by simpa using hqge
+    by_cases he : qs.isEmpty = true
+    · rw [if_pos he] at hqm
+      have := List.mem_range.mp (by simpa [SeqState.allQubits] using hqm)
+      omega
+    · rw [if_neg he] at hqm
+      have := hq q hqm
+      omega
+  rw [if_neg h2]
+  rfl
+
+/-- `_add` on a state whose channel's basis is addressed and whose targets are atoms of the register:
+whatever it raises, nothing has been changed. -/
+theorem addCore_atomic_ok {s : SeqState} {p : PulseIn} {n : ChName} {proto : Option Protocol}
+    {drift : Option Drift} {e : Err} (h : (addCore s p n proto drift).err = some e)
+    (hbas : ∀ c, s.getChan n = some c → Keys.HasB c.cfg.basis s)
+    (htg : ∀ c, s.getChan n = some c → TgtOk s.nQ c) : (addCore s p n proto drift).st = s := by
+  unfold addCore at h ⊢
+  cases proto with
+  | none => rfl
+  | some proto =>
+    simp only at h ⊢
+    cases hc : s.getChan n with
+    | none => rfl
+    | some c =>
+      simp only [hc] at h ⊢
+      cases hl : c.last with
+      | error e1 => rfl
+      | ok last =>
+        simp only [hl] at h ⊢
+        split
+        · rfl
+        · rename_i hph
+          simp only [hph, if_false] at h
+          generalize (if c.cfg.isDmm = true then none else
+            (s.lastPhases c.cfg.basis last.targets).head?) = phaseRef at h ⊢
+          cases hpr : validateAndAdjust c p phaseRef with
+          | error e1 => rfl
+          | ok pr =>
+            simp only [hpr] at h ⊢
+            cases hadd : addPulse s.dev.maxSeqDur c (s.others n) pr
+                (s.lastTimes c.cfg.basis last.targets) proto drift with
+            | error e1 => rfl
+            | ok c' =>
+              simp only [hadd] at h ⊢
+              obtain ⟨sl, hsl⟩ := addPulse_last_ok hadd
+              simp only [hsl] at h ⊢
+              generalize totalShift pr.post drift sl.ti = total at h ⊢
+              by_cases ht : total ≠ 0
+              · rw [if_pos ht] at h
+                -- the post-phase-shift cannot fail here
+                exfalso
+                have hb0 : Keys.HasB c.cfg.basis
+                    ((s.setChan c').mapRefs c.cfg.basis last.targets (·.updateLastUsed sl.tf)) :=
+                  Keys.mapRefs_hasB _ _ _ (by
+                    have := hbas c hc
+                    unfold Keys.HasB at this ⊢
+                    exact this)
+                have hm := mapRefs_chans (s.setChan c') c.cfg.basis last.targets (·.updateLastUsed sl.tf)
+                have hok := phaseShift_ok (phi := total) (qs := last.targets) (b := c.cfg.basis)
+                  ((Keys.hasB_iff _).mp hb0) (by
+                    intro q hq
+                    rw [hm.2.2]
+                    exact htg c hc _ (last_tgts hl) q hq)
+                simp only [Bool.false_eq_true, if_false] at h
+                rw [hok] at h; cases h
+              · rw [if_neg ht] at h
+                simp only [done] at h; cases h
+
+/-- **On every reachable sequence a call that raises leaves the sequence exactly as it was** — every
+operation, every error, no exception: in a reachable state the basis of every declared channel has
+its phase references and every instruction acts on atoms of the register (`BasesOk`, `TgtOk`:
+Proofs/BasesInv.lean, Proofs/TargetsInv.lean), so the only errors `failed_call_atomic` leaves out
+cannot be raised after the pulse was appended. -/
+theorem failed_call_atomic_reachable (dev : Device) (nQ : Nat) (hd : DevOk dev) (s : SeqState)
+    (hr : C02.Reach dev nQ s) (op : Op) (e : Err) (h : (stepRaw s op).err = some e) :
+    (stepRaw s op).st = s := by
+  obtain ⟨evs, rfl⟩ := hr
+  have h0 : SeqInv (SeqState.init dev nQ) := by intro c hc; simp [SeqState.init] at hc
+  have hb : BasesOk (runEv (SeqState.init dev nQ) evs) :=
+    runEv_bases _ evs (by intro c hc; simp [SeqState.init] at hc)
+  have ht : ∀ c ∈ (runEv (SeqState.init dev nQ) evs).chans, TgtOk nQ c :=
+    runEv_TG (s := SeqState.init dev nQ) hd h0 rfl (by intro c hc; simp [SeqState.init] at hc) evs
+  have hnq : (runEv (SeqState.init dev nQ) evs).nQ = nQ :=
+    runEv_nQ (s := SeqState.init dev nQ) hd h0 evs
+  generalize runEv (SeqState.init dev nQ) evs = s at *
+  by_cases he : early op e = true
+  · exact failed_call_atomic s op e h he
+  · -- `add` family with `noBasis` / `unknownQubit`
+    have hbas : ∀ n c, s.getChan n = some c → Keys.HasB c.cfg.basis s :=
+      fun n c hc => hb c (getChan_mem hc).1
+    have htg : ∀ n c, s.getChan n = some c → TgtOk s.nQ c :=
+      fun n c hc => by rw [hnq]; exact ht c (getChan_mem hc).1
+    cases op with
+    | add p n proto =>
+      simp only [stepRaw] at h ⊢
+      obtain ⟨h1, h2⟩ := store_st_of_err h
+      obtain ⟨h3, h4⟩ := markNonEmpty_st_of_err h1
+      rw [h2, h4]
+      by_cases g0 : s.measured.isSome = true
+      · rw [if_pos g0]; rfl
+      · rw [if_neg g0] at h3 ⊢
+        cases hc : s.validateChannel n true with
+        | error e1 => rfl
+        | ok c =>
+          simp only [hc] at h3 ⊢
+          by_cases g1 : c.cfg.isDmm = true
+          · rw [if_pos g1]; rfl
+          · rw [if_neg g1] at h3 ⊢
+            exact addCore_atomic_ok h3 (hbas n) (htg n)
+    | addDmm p n proto =>
+      simp only [stepRaw] at h ⊢
+      obtain ⟨h1, h2⟩ := store_st_of_err h
+      obtain ⟨h3, h4⟩ := markNonEmpty_st_of_err h1
+      rw [h2, h4]
+      by_cases g0 : s.measured.isSome = true
+      · rw [if_pos g0]; rfl
+      · rw [if_neg g0] at h3 ⊢
+        cases hc : s.validateChannel n false with
+        | error e1 => rfl
+        | ok c =>
+          simp only [hc] at h3 ⊢
+          by_cases g1 : (!c.cfg.isDmm) = true
+          · rw [if_pos g1]; rfl
+          · rw [if_neg g1] at h3 ⊢
+            exact addCore_atomic_ok h3 (hbas n) (htg n)
+    | addEom n dur phase post proto corr fs fe ref =>
+      simp only [stepRaw] at h ⊢
+      obtain ⟨h1, h2⟩ := store_st_of_err h
+      obtain ⟨h3, h4⟩ := markNonEmpty_st_of_err h1
+      rw [h2, h4]
+      by_cases g0 : s.measured.isSome = true
+      · rw [if_pos g0]; rfl
+      · rw [if_neg g0] at h3 ⊢
+        cases hc : s.validateChannel n false with
+        | error e1 => rfl
+        | ok c =>
+          simp only [hc] at h3 ⊢
+          cases hbk : c.eom.getLast? with
+          | none => rfl
+          | some b =>
+            simp only [hbk] at h3 ⊢
+            by_cases g1 : b.tf.isSome = true
+            · rw [if_pos g1]; rfl
+            · rw [if_neg g1] at h3 ⊢
+              exact addCore_atomic_ok h3 (hbas n) (htg n)
+    | declare _ _ _ => simp [early] at he
+    | configDetMap _ _ _ => simp [early] at he
+    | target _ _ => simp [early] at he
+    | delay _ _ _ => simp [early] at he
+    | align _ _ => simp [early] at he
+    | phaseShift _ _ _ => simp [early] at he
+    | enableEom _ _ => simp [early] at he
+    | modifyEom _ _ => simp [early] at he
+    | disableEom _ _ => simp [early] at he
+    | measure _ => simp [early] at he
+    | getDuration _ _ => simp [early] at he
+    | estimate _ _ _ => simp [early] at he
+    | phaseRef _ _ => simp [early] at he
+
 /-- Every call of the history succeeds (queries included). -/
 def AllOk : SeqState → List Op → Prop
   | _, [] => True
@@ -341,6 +519,12 @@ theorem delay_over_max_seq_atomic :
   decide +kernel
 
 /-! ### Non-vacuity -/
+/-- the hypotheses of `failed_call_atomic_reachable` are met by the example device and a state reached
+by two calls, on which a refused call exists (`delay_at_rest_atomic`) -/
+example : DevOk exDev ∧ C02.Reach exDev 1 sPulse :=
+  ⟨by constructor <;> intro c hc <;> simp [exDev, exCfg] at hc ⊢ <;> (try subst hc) <;> decide,
+   C02.Reach.of_run _ _ _⟩
+
 /-- a history with two refused calls in between (a delay below the minimum duration, a channel
 declared on a bad initial target) meets the hypothesis of `replay_log_with_refusals` -/
 example : AllOkOrRefused (SeqState.init exDev 1)
